@@ -4,6 +4,7 @@ import (
 	"encoding/json"
 	"math/rand"
 	"os"
+	"runtime"
 	"sync"
 	"testing"
 
@@ -20,10 +21,44 @@ type gateLocker struct {
 	gates  map[int]chan struct{}
 	r      *Run
 	meta   sync.Mutex
+	shared bool
+	byGo   map[uint64]int
 }
 
-func (g *gateLocker) Lock() { g.mu.Lock() }
+func goid() uint64 {
+	var buf [64]byte
+	n := runtime.Stack(buf[:], false)
+	var id uint64
+	for _, c := range buf[len("goroutine "):n] {
+		if c < '0' || c > '9' {
+			break
+		}
+		id = id*10 + uint64(c-'0')
+	}
+	return id
+}
+
+// shared = true: the Locker does not exclude anybody (like the read side of a sync.RWMutex): several goroutines can be
+// inside Wait's prologue at the same time. The waiter that unlocks is then identified by its goroutine.
+func (g *gateLocker) Lock() {
+	if g.shared {
+		return
+	}
+	g.mu.Lock()
+}
 func (g *gateLocker) Unlock() {
+	if g.shared {
+		g.meta.Lock()
+		w := g.byGo[goid()]
+		in := g.inWait[w]
+		gate := g.gates[w]
+		g.meta.Unlock()
+		if w != 0 && in {
+			g.r.emit(Ev{"ev": "unlocked", "w": w})
+			<-gate
+		}
+		return
+	}
 	w := g.holder
 	g.meta.Lock()
 	in := g.inWait[w]
@@ -47,7 +82,7 @@ type condStep struct {
 
 func runCond(t *testing.T, steps []condStep) ([]Ev, bool, string) {
 	return bubble(t, func(r *Run) {
-		g := &gateLocker{inWait: map[int]bool{}, gates: map[int]chan struct{}{}, r: r}
+		g := &gateLocker{inWait: map[int]bool{}, gates: map[int]chan struct{}{}, r: r, byGo: map[uint64]int{}, shared: envInt("VH_SHARED", 0) == 1}
 		c := xsync.NewContextCond(g)
 		released := map[int]bool{}
 		entered := map[int]bool{}
@@ -90,15 +125,27 @@ func runCond(t *testing.T, steps []condStep) ([]Ev, bool, string) {
 				r.emit(Ev{"ev": "enter", "w": w})
 				go func() {
 					g.Lock()
-					g.holder = w
+					if !g.shared {
+						g.holder = w
+					}
 					g.meta.Lock()
 					g.inWait[w] = true
+					g.byGo[goid()] = w
 					g.meta.Unlock()
 					err := c.Wait(ctx)
 					g.meta.Lock()
 					g.inWait[w] = false
 					g.meta.Unlock()
 					res, held := "nil", 0
+					if g.shared { // nobody is excluded: "holds the lock again" cannot be observed, the expected value is recorded
+						if err != nil {
+							res = "ctx"
+						} else {
+							held = 1
+						}
+						r.emit(Ev{"ev": "ret", "w": w, "res": res, "held": held})
+						return
+					}
 					if err != nil {
 						res = "ctx"
 						// the lock must not be held: TryLock succeeds only if nobody (in particular not Wait) holds it
